@@ -99,7 +99,7 @@ def _unescape_tla(s):
     return s.replace('\\"', '"').replace('\\\\', '\\')
 
 
-def run_tlc(module, cfg, env, name, workers=8, timeout=600, simulate=None, heap='8g', coverage=False):
+def run_tlc(module, cfg, env, name, workers=8, timeout=600, simulate=None, heap='5g', coverage=False):
     """Runs TLC; a StackOverflowError inside TLC (frame sizes depend on JIT timing) is retried, never a verdict."""
     global _linted
     if not _linted:
@@ -116,7 +116,40 @@ def run_tlc(module, cfg, env, name, workers=8, timeout=600, simulate=None, heap=
     raise Infra('TLC StackOverflowError (3 attempts) on %s/%s:\n%s' % (module, name, last.out[-2000:]))
 
 
-def _run_tlc(module, cfg, env, name, workers=8, timeout=600, simulate=None, heap='8g', coverage=False):
+TLC_SLOTS = 9        # JVMs running at once ON THIS MACHINE, across all check processes (each may grow to its -Xmx)
+
+
+class _TlcSlot:
+    """cross-process counting semaphore made of lock files: several checks (self-test, seeded changes, thorough tiers)
+    may run side by side; together they must not exhaust the memory"""
+
+    def __enter__(self):
+        import fcntl
+        d = os.path.join(BUILD, 'locks')
+        os.makedirs(d, exist_ok=True)
+        while True:
+            for i in range(TLC_SLOTS):
+                f = open(os.path.join(d, 'tlc.%d' % i), 'w')
+                try:
+                    fcntl.flock(f, fcntl.LOCK_EX | fcntl.LOCK_NB)
+                    self.f = f
+                    return self
+                except OSError:
+                    f.close()
+            time.sleep(0.2)
+
+    def __exit__(self, *a):
+        import fcntl
+        fcntl.flock(self.f, fcntl.LOCK_UN)
+        self.f.close()
+
+
+def _run_tlc(module, cfg, env, name, workers=8, timeout=600, simulate=None, heap='5g', coverage=False):
+    with _TlcSlot():
+        return _run_tlc_locked(module, cfg, env, name, workers, timeout, simulate, heap, coverage)
+
+
+def _run_tlc_locked(module, cfg, env, name, workers=8, timeout=600, simulate=None, heap='5g', coverage=False):
     """Runs TLC on spec/<module>.tla with spec/<cfg>; returns TlcResult.  Raises Infra on tool failures."""
     ensure_dirs()
     meta = os.path.join(BUILD, 'tlc', str(os.getpid()), name)
